@@ -77,6 +77,9 @@ pub struct Sim {
     pub last_state: Value,
 }
 
+/// events per scenario after which a history is cut off as never ending
+pub const RUNAWAY_LINES: u64 = 40_000;
+
 impl Sim {
     pub fn client(&self) -> &Client {
         self.client.as_ref().unwrap()
@@ -164,6 +167,9 @@ impl Sim {
         args: Value,
         f: F,
     ) -> bool {
+        if self.lines > RUNAWAY_LINES {
+            return false;
+        }
         let wl = wlog_on();
         if wl {
             let c = self.client.as_ref().unwrap();
@@ -240,6 +246,15 @@ impl Sim {
 
     /// Removes and returns the oldest outstanding request of the given kind sent to `peer`.
     pub fn take_request<T, F: Fn(&Sent) -> Option<T>>(&mut self, peer: PeerIndex, f: F) -> Option<T> {
+        // a scenario that never ends (the client keeps asking, the peers keep answering): one `Runaway` event, which no
+        // trace specification accepts, and no request is handed out any more, so that every "answer while asked" loop ends
+        if self.lines >= RUNAWAY_LINES {
+            if self.lines == RUNAWAY_LINES {
+                let rec = json!({"ev": "Runaway", "a": {"lines": self.lines}, "st": self.state(), "out": {"ban": [], "drop": [], "sent": []}});
+                self.emit(rec);
+            }
+            return None;
+        }
         let pos = self
             .inbox
             .iter()
